@@ -23,6 +23,29 @@ KIND = {'solid': (0, False), 'solid-static': (0, True), 'liquid': (1, False), 'l
 MAXY = 6
 
 
+REF_SIGNATURES = {
+    'cf_build_solver': ['layer_type', 'is_static', 'is_incomp', 'num_slices', 'num_ys', 'radius_array_ptr', 'density_array_ptr', 'gravity_array_ptr', 'bulk_modulus_array_ptr', 'shear_modulus_array_ptr',
+                        'frequency_to_use', 'degree_l', 'G_to_use', 't_span', 'y0_ptr', 'atols_ptr', 'rtols_ptr', 'rk_method', 'max_step', 'max_num_steps', 'expected_size', 'max_ram_MB', 'limit_solution_to_radius'],
+    'cf_find_starting_conditions': ['layer_type', 'is_static', 'is_incompressible', 'use_kamata', 'frequency', 'radius', 'density', 'bulk_modulus', 'shear_modulus', 'degree_l', 'G_to_use', 'num_ys',
+                                    'starting_conditions_ptr', 'run_y_checks'],
+    'cf_radial_solver': ['total_slices', 'radius_array_ptr', 'density_array_ptr', 'gravity_array_ptr', 'bulk_modulus_array_ptr', 'complex_shear_modulus_array_ptr', 'frequency', 'planet_bulk_density',
+                         'num_layers', 'layer_types_ptr', 'is_static_by_layer_ptr', 'is_incompressible_by_layer_ptr', 'upper_radius_by_layer_ptr', 'degree_l', 'solve_for', 'use_kamata',
+                         'integration_method', 'integration_rtol', 'integration_atol', 'scale_rtols_by_layer_type', 'max_num_steps', 'expected_size', 'max_ram_MB', 'max_step',
+                         'limit_solution_to_radius', 'nondimensionalize', 'verbose', 'raise_on_fail'],
+}
+
+
+def role_names(fname, actual):
+    """Parameters of an internal function are addressed by their *role* (the name they have on the reference tree).  A tree that keeps the names may reorder them; a tree that
+    renames them must keep their order; a tree that does both cannot be matched and is an analysis error (never a guess)."""
+    ref = REF_SIGNATURES[fname]
+    if all(n in actual for n in ref):
+        return list(actual)                                    # same names (any order): roles are the names
+    if len(actual) == len(ref):
+        return list(ref)                                       # renamed, same arity: roles by position
+    raise AnalysisError(f'{fname}: its parameters were both renamed and re-arranged ({actual}); the roles of its arguments cannot be matched')
+
+
 class Run:
     pass
 
@@ -77,8 +100,7 @@ def run_solver(repo, kinds, solve_for=('tidal',), nondimensionalize=False, slice
 
     def make_solver(args):
         # cf_build_solver(layer_type, static, incomp, layer_slices, num_ys_dbl, radius_ptr, ..., y0_ptr at index 14, ...)
-        lt, st_, inc_, nsl, nyd = args[0], args[1], args[2], args[3], args[4]
-        y0 = args[14]
+        lt, st_, inc_, nsl, nyd, y0 = (args[k_] for k_ in build_pos)
         state['layer'] += 1
         layer = state['layer']
         state.setdefault('build_calls', []).append(list(args))
@@ -104,6 +126,16 @@ def run_solver(repo, kinds, solve_for=('tidal',), nondimensionalize=False, slice
         so.attrs['_solve'] = solve; so.attrs['solve'] = solve
         return so
 
+    def positions(path, fname, roles):
+        m_ = repo.by_path(path)
+        fd = m_.defs.get(fname)
+        if not isinstance(fd, ast.FunctionDef):
+            raise AnalysisError(f'{fname} vanished')
+        names = role_names(fname, [a_.arg for a_ in fd.args.args])
+        return [names.index(r_) for r_ in roles]
+    build_pos = positions('TidalPy/RadialSolver/derivatives/odes.pyx', 'cf_build_solver', ['layer_type', 'is_static', 'is_incomp', 'num_slices', 'num_ys', 'y0_ptr'])
+    start_pos = positions('TidalPy/RadialSolver/starting/driver.pyx', 'cf_find_starting_conditions', ['layer_type', 'is_static', 'starting_conditions_ptr'])
+
     def call_hook(itp, fn_, args, kwargs, e, fr):
         nm = fn_.node.name if isinstance(fn_, FuncRef) else str(getattr(fn_, 'name', ''))
         base = nm.split('.')[-1]
@@ -123,9 +155,8 @@ def run_solver(repo, kinds, solve_for=('tidal',), nondimensionalize=False, slice
             if isinstance(fn_, FuncRef):
                 names = [a_.arg for a_ in fn_.node.args.args]
                 bound = dict(zip(names, args)); bound.update(kwargs)
-                state.setdefault('start_calls', []).append(bound)
-            out = args[12]
-            lt, st_ = args[0], args[1]
+                state.setdefault('start_calls', []).append((names, bound))
+            lt, st_, out = (args[k_] for k_ in start_pos)
             nsol = ts72.NUM_SOLS[('solid' if lt == 0 else 'liquid', bool(st_))]
             nys = len(ts72.LAYOUT[('solid' if lt == 0 else 'liquid', bool(st_))])
             for s_ in range(nsol):
